@@ -3,7 +3,6 @@
 // For the full copyright and license information, please view the LICENSE
 // file that was distributed with this source code.
 
-use chrono::DateTime;
 use std::{
     fs::File,
     io::{stderr, Write},
@@ -182,8 +181,10 @@ impl Ls {
         let size = metadata.size();
         let last_modified = {
             let system_time = metadata.modified().unwrap();
-            let now_utc: DateTime<chrono::Utc> = system_time.into();
-            now_utc.format("%b %e %H:%M")
+            match super::time::utc_datetime(system_time) {
+                Some(t) => t.format("%b %e %H:%M").to_string(),
+                None => super::time::epoch_seconds(system_time),
+            }
         };
         let path = file_info.path().to_string_lossy();
 
@@ -251,8 +252,10 @@ impl Ls {
         let size = metadata.file_size();
         let last_modified = {
             let system_time = metadata.modified().unwrap();
-            let now_utc: DateTime<chrono::Utc> = system_time.into();
-            now_utc.format("%b %e %H:%M")
+            match super::time::utc_datetime(system_time) {
+                Some(t) => t.format("%b %e %H:%M").to_string(),
+                None => super::time::epoch_seconds(system_time),
+            }
         };
         let path = file_info.path().to_string_lossy();
 
